@@ -181,7 +181,7 @@ theorem waits_eq (e : Env) (r : Req) :
 
 /-- from the dial step on, for a state that has not returned -/
 theorem fromDial_run (e : Env) (r : Req) (pre : List Action) (proceeded : Bool) (payload : Bytes) (consumed readN : Nat) :
-    finish (runSteps e [Step.dial, Step.deferCloseRemote, Step.proceedIfPending, Step.copy, Step.addPayloadLen, Step.collect]
+    finish (runSteps e [Step.dial, Step.deferCloseRemote, Step.proceedIfPending, Step.copy, Step.addPayloadLen, Step.collect, Step.returnIfCopyErr]
       { req := { r with payload := payload }, proceeded := proceeded, consumed := consumed, readN := readN, trace := pre }) =
     pre ++ fromDial e r proceeded payload consumed := by
   rw [runSteps_run _ _ _ _ rfl]; simp only [execStep, St.emit]
@@ -198,7 +198,8 @@ theorem fromDial_run (e : Env) (r : Req) (pre : List Action) (proceeded : Bool) 
       rw [runSteps_run _ _ _ _ rfl]; simp only [execStep, St.emit]
       simp only [fromDial, hd, Bool.not_true, Bool.false_and, if_true, if_false, Bool.false_eq_true, List.nil_append]
       cases hdl : (copyRun e consumed).doneL <;> cases hdr : (copyRun e consumed).doneR <;>
-        simp [hdl, hdr, runSteps, execStep, finish, setCounter, getCounter, payloadAddedTo, collectDown, collectUp, St.emit, counter_nl2r, counter_nr2l]
+        cases hfl : (copyRun e consumed).failL <;> cases hfr : (copyRun e consumed).failR <;>
+        simp [hdl, hdr, hfl, hfr, St.ret, runSteps, execStep, finish, setCounter, getCounter, payloadAddedTo, collectDown, collectUp, St.emit, counter_nl2r, counter_nr2l]
     | false =>
       cases hp : e.proceedOk with
       | false => simp [fromDial, hd, hp, finish, runSteps, St.ret]
@@ -207,7 +208,8 @@ theorem fromDial_run (e : Env) (r : Req) (pre : List Action) (proceeded : Bool) 
         rw [runSteps_run _ _ _ _ rfl]; simp only [execStep, St.emit]
         simp only [fromDial, hd, hp, Bool.not_true, Bool.not_false, Bool.and_false, if_true, if_false, Bool.false_eq_true]
         cases hdl : (copyRun e consumed).doneL <;> cases hdr : (copyRun e consumed).doneR <;>
-          simp [hdl, hdr, runSteps, execStep, finish, setCounter, getCounter, payloadAddedTo, collectDown, collectUp, St.emit, counter_nl2r, counter_nr2l]
+        cases hfl : (copyRun e consumed).failL <;> cases hfr : (copyRun e consumed).failR <;>
+          simp [hdl, hdr, hfl, hfr, St.ret, runSteps, execStep, finish, setCounter, getCounter, payloadAddedTo, collectDown, collectUp, St.emit, counter_nl2r, counter_nr2l]
 
 
 theorem handleConn_nowait (e : Env) (r : Req) (hr : e.req = some r) (hroute : e.routeErr = none) (hw : waits e r = false) :
@@ -375,6 +377,21 @@ theorem collect_mem_afterWait (e : Env) (r : Req) (u : String) (d up : Nat) (h :
 theorem closeWrite_mem_afterWait (e : Env) (r : Req) (s : Side) (h : Action.closeWrite s ∈ afterWait e r) :
     e.proceedOk = true ∧ e.setDeadlineOk = true ∧ e.waitKind ≠ .error ∧ e.clearDeadlineOk = true ∧
       Action.closeWrite s ∈ fromDial e r true (e.clientStream.take (waitBytes e)) (waitBytes e) := by
+  simp only [afterWait] at h
+  revert h; (repeat' split) <;> simp_all
+
+
+/-- once BidirectionalCopy has returned (the handler is not blocked in it) the session is collected — whichever way the
+loops ended (EOF or error) -/
+theorem collect_of_copied_fromDial (e : Env) (r : Req) (pr : Bool) (p : Bytes) (k : Nat) (a b : Bytes)
+    (hc : Action.copied a b ∈ fromDial e r pr p k) (hnb : Action.blocked ∉ fromDial e r pr p k) :
+    Action.collect r.user (copyRun e k).nR ((copyRun e k).nL + p.length) ∈ fromDial e r pr p k := by
+  simp only [fromDial] at hc hnb ⊢
+  revert hc hnb; (repeat' split) <;> simp_all
+
+theorem copied_mem_afterWait (e : Env) (r : Req) (a b : Bytes) (h : Action.copied a b ∈ afterWait e r) :
+    e.proceedOk = true ∧ e.setDeadlineOk = true ∧ e.waitKind ≠ .error ∧ e.clearDeadlineOk = true ∧
+      Action.copied a b ∈ fromDial e r true (e.clientStream.take (waitBytes e)) (waitBytes e) := by
   simp only [afterWait] at h
   revert h; (repeat' split) <;> simp_all
 
